@@ -807,7 +807,88 @@ func scenarioConcurrent(seed int64, idle, frame time.Duration) *verdict {
 	return w.finish(v, 0, 8*time.Second)
 }
 
+// scenarioChurn: sessions created and left at once, again and again - a session ends with its last member, and with it
+// its frame worker (C07)
+func scenarioChurn(seed int64, idle, frame time.Duration) *verdict {
+	w := newWorld(seed, idle, frame)
+	for k := 0; k < 40; k++ {
+		c := w.s.dial("churn", true)
+		w.all = append(w.all, c)
+		switch w.r.Intn(3) {
+		case 0: // create and hang up without waiting for the answer
+			c.send(&hagallpb.ParticipantJoinRequest{Type: hagallpb.MsgType_MSG_TYPE_PARTICIPANT_JOIN_REQUEST, Timestamp: now(), RequestId: rid()})
+			c.ws.Close()
+		case 1: // create, then switch to a new session at once (the first one ends)
+			c.join("")
+			c.join("")
+			c.ws.Close()
+		default: // create, let a few frames pass, leave
+			c.join("")
+			time.Sleep(time.Duration(w.r.Intn(3)) * frame)
+			c.ws.Close()
+		}
+	}
+	return w.finish(nil, 0, 3*time.Second+2*idle)
+}
+
+// scenarioTypes: the participants of one session register the same new component type names at the same moment -
+// a name gets one id, an id one name (C10)
+func scenarioTypes(seed int64, idle, frame time.Duration) *verdict {
+	w := newWorld(seed, 5*time.Second, frame)
+	k := 6
+	var clients []*client
+	for i := 0; i < k; i++ {
+		c := w.s.dial(fmt.Sprintf("t%d", i), true)
+		c.join(w.sidA)
+		clients = append(clients, c)
+		w.all = append(w.all, c)
+	}
+	const names = 40
+	for n := 0; n < names; n++ {
+		var wg sync.WaitGroup
+		start := make(chan struct{})
+		for _, c := range clients {
+			wg.Add(1)
+			go func(c *client) {
+				defer wg.Done()
+				<-start
+				c.send(&hagallpb.EntityComponentTypeAddRequest{Type: hagallpb.MsgType_MSG_TYPE_ENTITY_COMPONENT_TYPE_ADD_REQUEST, Timestamp: now(), RequestId: rid(), EntityComponentTypeName: fmt.Sprintf("type-%d", n)})
+			}(c)
+		}
+		close(start)
+		wg.Wait()
+	}
+	time.Sleep(100 * time.Millisecond)
+	// read the registry back: ids 1.. must carry distinct names
+	seen := map[string]uint32{}
+	var v *verdict
+	c := clients[0]
+	for id := uint32(1); id <= names+10 && v == nil; id++ {
+		r := rid()
+		c.send(&hagallpb.EntityComponentTypeGetNameRequest{Type: hagallpb.MsgType_MSG_TYPE_ENTITY_COMPONENT_TYPE_GET_NAME_REQUEST, Timestamp: now(), RequestId: r, EntityComponentTypeId: id})
+		m, ok := c.waitFor(hagallpb.MsgType_MSG_TYPE_ENTITY_COMPONENT_TYPE_GET_NAME_RESPONSE, 300*time.Millisecond, func(m hwebsocket.Msg) bool {
+			var resp hagallpb.EntityComponentTypeGetNameResponse
+			m.DataTo(&resp)
+			return resp.RequestId == r
+		})
+		if !ok {
+			continue // no such id
+		}
+		var resp hagallpb.EntityComponentTypeGetNameResponse
+		m.DataTo(&resp)
+		if other, dup := seen[resp.EntityComponentTypeName]; dup {
+			v = &verdict{"type-name-registered-twice", fmt.Sprintf("component type name %q is registered under ids %d and %d", resp.EntityComponentTypeName, other, id)}
+		}
+		seen[resp.EntityComponentTypeName] = id
+	}
+	if v == nil && len(seen) != names {
+		v = &verdict{"type-registry-size", fmt.Sprintf("%d names were registered concurrently, the registry holds %d", names, len(seen))}
+	}
+	return w.finish(v, 0, 8*time.Second)
+}
+
 var scenarios = map[string]func(int64, time.Duration, time.Duration) *verdict{
+	"churn": scenarioChurn, "types": scenarioTypes,
 	"concurrent": scenarioConcurrent,
 	"order": scenarioOrder,
 	"malformed": scenarioMalformed, "fields": scenarioFields, "burst": scenarioBurst, "abrupt": scenarioAbrupt,
